@@ -59,6 +59,14 @@ bool Module::add(Module *child, bool required)
         return false;
     }
 
+    //! 防止形成环：child 不能是自己，也不能是自己的祖先
+    for (const Module *p = this; p != nullptr; p = p->parent_) {
+        if (p == child) {
+            LogWarn("module %s can't add %s, it is an ancestor", name_.c_str(), child->name_.c_str());
+            return false;
+        }
+    }
+
     //! 检查名称有没有重复的
     auto iter = std::find_if(children_.begin(), children_.end(),
         [child] (const ModuleItem &item) {
